@@ -1187,7 +1187,7 @@ func wrapAny(val Node, targetType *Type) Node {
 	case *BinaryExpression:
 		if targetType.Name == ARRAY && (v.Op == OP_PLUS || v.Op == OP_ASTERISK) {
 			v.Left = wrapAny(v.Left, targetType)
-			if v.Op == OP_PLUS {
+			if v.Op == OP_PLUS && v.Right.Type() != nil && v.Right.Type().Name == ARRAY {
 				v.Right = wrapAny(v.Right, targetType)
 			}
 			v.T = targetType
